@@ -444,6 +444,24 @@ func init() {
 			}
 			g.emit("fdb %s", showBytesList(keys))
 		}
+		// every key of a range shares a prefix of several thousand bytes: all first-difference positions lie beyond
+		// 2^15, 2^16 (a narrowed counter, a small "infinity" as the start of a minimum search)
+		for _, L := range []int{4100 + g.intn(50), 8200 + g.intn(50), 12300 + g.intn(50)} {
+			pfx := g.bytes(L, 3)
+			for len(pfx) < L {
+				pfx = append(pfx, byte(0x31+len(pfx)%7))
+			}
+			pfx = pfx[:L]
+			keys := [][]byte{}
+			for _, tail := range [][]byte{{0x10}, {0x10, 0x00, 0x01}, {0x10, 0x80}, {0x11, 0x00}, {0x31}, {0x31, 0x07, 0x07}} {
+				keys = append(keys, append(append([]byte(nil), pfx...), tail...))
+			}
+			ks := showBytesList(keys)
+			g.emit("fdb %s", ks)
+			g.emit("countprefixes %s 0 %d 4", ks, len(keys))
+			g.emit("countprefixes %s 1 4 2", ks)
+			g.emit("countprefixes %s 2 %d 9", ks, len(keys))
+		}
 		// one bit position that is the first difference of 65536 adjacent pairs: all 17-bit values as keys
 		if g.thorough() || true {
 			var sb strings.Builder
